@@ -582,14 +582,14 @@ func directedWorlds(prop string) []directedWorld {
 	if prop == "C01" {
 		// K1: a propagation entry on a protected branch is skipped unverified and its target becomes the tip
 		out = append(out, directedWorld{finding: 1, w: &wWorld{
-			Commits: []wCommit{{1, 1, nil}, {2, 2, []int{1}}, {3, 3, []int{2}}},
+			Commits: []wCommit{{ID: 1, Tree: 1, Parents: nil}, {ID: 2, Tree: 2, Parents: []int{1}}, {ID: 3, Tree: 3, Parents: []int{2}}},
 			Events: []wEvent{{Kind: "policy", Pol: simplePolicy(), Signer: 1}, {Kind: "ref", Ref: refMain, Commit: 2, Signer: 4},
 				{Kind: "prop", Ref: refMain, Commit: 3}}}})
 	}
 	if prop == "C01" || prop == "C07" {
 		// K5: the fix entry of a recovery is never checked against policy
 		out = append(out, directedWorld{finding: 5, w: &wWorld{
-			Commits: []wCommit{{1, 1, nil}, {2, 2, []int{1}}, {3, 3, []int{2}}, {4, 2, []int{3}}},
+			Commits: []wCommit{{ID: 1, Tree: 1, Parents: nil}, {ID: 2, Tree: 2, Parents: []int{1}}, {ID: 3, Tree: 3, Parents: []int{2}}, {ID: 4, Tree: 2, Parents: []int{3}}},
 			Events: []wEvent{{Kind: "policy", Pol: simplePolicy(), Signer: 1}, {Kind: "ref", Ref: refMain, Commit: 2, Signer: 4},
 				{Kind: "ref", Ref: refMain, Commit: 3, Signer: 8}, {Kind: "ann", Targets: []int{2}, Skip: true, Signer: 1},
 				{Kind: "ref", Ref: refMain, Commit: 4, Signer: 8}}}})
